@@ -21,8 +21,8 @@ def run(ctx, args):
     trace = os.path.join(ctx.scratch, "trace.ndjson")
     env = {"VERIF_TRACE": trace,
            "VERIF_BATCHES": 2000 if quick else 81000,
-           "VERIF_MULTIS": 120 if quick else 1500,
-           "VERIF_VECTORS": 100 if quick else 2200}
+           "VERIF_MULTIS": 80 if quick else 1500,
+           "VERIF_VECTORS": 60 if quick else 2200}
 
     def mc(tla, cfg, workers=3, **kw):
         return lambda: ctx.tlc_mc(d, tla, cfg, workers=workers, timeout=2400, xss=True, **kw)
